@@ -104,6 +104,9 @@ func raceSlice(t *testing.T, backend string, seed uint64, d time.Duration, rs *r
 	st := metrics.NewStats()
 	dbc := dnsserver.DBConfig{Path: p0, Driver: srvDriver(backend), ReloadTimeout: 5 * time.Second, ValidationKey: gen.ValidationKey(w.v2)}
 	cc := dnsserver.CacheConfig{Enabled: seed%2 == 0, LRUSize: 16}
+	if seed%4 == 0 {
+		cc.WRSTimeout = 5 // weighted answers are cached too (for five seconds)
+	}
 	fb, err := dnsserver.NewFBDNSDB(dnsserver.HandlerConfig{}, dbc, cc, &dnsserver.DummyLogger{}, st)
 	if err != nil {
 		t.Fatal(err)
@@ -153,7 +156,7 @@ func raceSlice(t *testing.T, backend string, seed uint64, d time.Duration, rs *r
 						if a, ok := rr.(*dns.A); ok {
 							if seen[a.A.String()] {
 								vmu.Lock()
-								violate("weighted answer repeats %s", a.A)
+								violate("weighted-answer-repeats: %s twice in one answer", a.A)
 								vmu.Unlock()
 							}
 							seen[a.A.String()] = true
@@ -161,7 +164,7 @@ func raceSlice(t *testing.T, backend string, seed uint64, d time.Duration, rs *r
 					}
 					if len(seen) > maxAns || len(seen) == 0 {
 						vmu.Lock()
-						violate("weighted answer has %d addresses for max answer %d", len(seen), maxAns)
+						violate("weighted-answer-count: %d addresses for max answer %d", len(seen), maxAns)
 						vmu.Unlock()
 					}
 				}
